@@ -627,3 +627,24 @@ Fixpoint strcmp_eq (m : list byte) (s : list byte) : res bool :=
 Definition bundle_p (m : list byte) : res bool := strcmp_eq m bundle_magic.
 
 Definition bundle_timetag (m : list byte) : res Z := rd64 m 8.
+
+(* ---- src/cpp/subtree-serialize.cpp: append_bundle and the fold that
+   subtree_serialize runs over the captured replies ----------------------- *)
+Definition append_bundle (dst src : list byte) (dst_len : Z) : res (Z * list byte) :=
+  let max_len := zlen dst in
+  let src_len := zlen src in
+  if (max_len <? dst_len + src_len + 4) || (dst_len =? 0) || (src_len =? 0) then Ok (0, dst)
+  else
+    rest <- apply_chunks (skipn (Z.to_nat dst_len) dst) [Wr (be32 src_len); Wr src] ;;
+    Ok (dst_len + src_len + 4, firstn (Z.to_nat dst_len) dst ++ rest).
+
+Fixpoint append_all (buf : list byte) (len : Z) (msgs : list (list byte)) : res (Z * list byte) :=
+  match msgs with
+  | [] => Ok (len, buf)
+  | m :: r => x <- append_bundle buf m len ;; append_all (snd x) (fst x) r
+  end.
+
+Definition SUBTREE_TT : Z := 16045690981265902605.   (* 0xdeadbeef0a0b0c0d *)
+
+Definition subtree_serialize (buf : list byte) (msgs : list (list byte)) : res (Z * list byte) :=
+  x <- bundle buf SUBTREE_TT [] ;; append_all (snd x) (fst x) msgs.
